@@ -132,6 +132,12 @@ type DirEvent struct {
 // staleReadable reports whether, at some instant in [from, to], the on-disk state of incarnation inc satisfied the
 // library's staleness predicate (heartbeat files present: all older than the threshold; none: the directory older).
 func (w *World) staleReadable(inc int, from, to time.Time) bool {
+	return w.staleReadableMargin(inc, from, to, 0)
+}
+
+// staleReadableMargin is staleReadable with the threshold lowered by margin (real-time mode: the event log lags the kernel).
+func (w *World) staleReadableMargin(inc int, from, to time.Time, margin time.Duration) bool {
+	thr := (StaleAfter - margin).Milliseconds()
 	files := map[string]time.Time{}
 	var dir time.Time
 	pred := func(at time.Time) bool {
@@ -139,10 +145,10 @@ func (w *World) staleReadable(inc int, from, to time.Time) bool {
 			return false
 		}
 		if len(files) == 0 {
-			return !dir.IsZero() && at.Sub(dir).Milliseconds() > StaleAfter.Milliseconds()
+			return !dir.IsZero() && at.Sub(dir).Milliseconds() > thr
 		}
 		for _, m := range files {
-			if at.Sub(m).Milliseconds() <= StaleAfter.Milliseconds() {
+			if at.Sub(m).Milliseconds() <= thr {
 				return false
 			}
 		}
@@ -180,13 +186,18 @@ func (w *World) staleReadable(inc int, from, to time.Time) bool {
 // StaleReadableDuring reports whether some incarnation of the lock directory could legitimately be read as stale at
 // some instant of [from, to] (by the state-based predicate, i.e. ignoring the non-atomicity of the library's reading).
 func (w *World) StaleReadableDuring(from, to time.Time) bool {
+	return w.StaleReadableDuringMargin(from, to, 0)
+}
+
+// StaleReadableDuringMargin is StaleReadableDuring with the staleness threshold lowered by margin.
+func (w *World) StaleReadableDuringMargin(from, to time.Time, margin time.Duration) bool {
 	w.mu.Lock()
 	defer w.mu.Unlock()
 	for _, inc := range w.Incs {
 		if inc.BirthT.After(to) {
 			continue
 		}
-		if w.staleReadable(inc.ID, from, to) {
+		if w.staleReadableMargin(inc.ID, from, to, margin) {
 			return true
 		}
 	}
